@@ -1,4 +1,4 @@
-import MorfuseModel.Archive.Model
+import MorfuseModel.Archive.Value
 import Driver.Util
 /-! driver for the Archive model (properties C10, C11).
 
@@ -7,7 +7,9 @@ A case is `classes <hex>…` (the class registry of the build, in `ClassDef` lis
 `t k` / `s pos byte` / `tall` / `sx pos` / `layout` lines about the archive just written.
 
 items (prefix notation): `p <prim> <nat>` | `r <hex>` | `s <hex>` | `op <lbl>` | `sp <lbl>` |
-`pos <lbl>` | `obj <lbl> <classname-hex> <n> <n items>`;  `-` is the empty byte string. -/
+`pos <lbl>` | `obj <lbl> <classname-hex> <n> <n items>` | `v <self> <value>`;  `-` is the empty byte string.
+values: `n` | `i <nat>` | `f <nat>` | `c <nat>` | `s <hex>` | `k0` | `k <hex>` | `vec <hex>` | `l <lbl>` |
+`ca <holder> <refcount> <n> (<self> <value>)*n` | `car <holder>`.  Read-backs print elements without `<self>`. -/
 namespace Driver.Archive
 open Morfuse.Archive
 
@@ -69,11 +71,42 @@ partial def parseN : Nat → List String → Option (List Item × List String)
     some (i :: is, r2)
 end
 
-partial def parseAll (r : List String) : Option (List Item) :=
-  if r.isEmpty then some [] else do
+mutual
+partial def parseValue : List String → Option (Value × List String)
+  | "n" :: r => some (.none, r)
+  | "i" :: v :: r => do let v ← v.toNat?; if v < 2 ^ 64 then some (.int v, r) else none
+  | "f" :: v :: r => do let v ← v.toNat?; if v < 2 ^ 32 then some (.float v, r) else none
+  | "c" :: v :: r => do let v ← v.toNat?; if v < 256 then some (.char v, r) else none
+  | "s" :: h :: r => do some (.string (← bytes? h), r)
+  | "k0" :: r => some (.constString none, r)
+  | "k" :: h :: r => do some (.constString (some (← bytes? h)), r)
+  | "vec" :: h :: r => do let b ← bytes? h; if b.length = 12 then some (.vector b, r) else none
+  | "l" :: l :: r => do some (.listener (← l.toNat?), r)
+  | "car" :: h :: r => do some (.constArrayRef (← h.toNat?), r)
+  | "ca" :: h :: rc :: n :: r => do
+    let (es, r') ← parseElems (← n.toNat?) r
+    some (.constArray (← h.toNat?) (← rc.toNat?) es, r')
+  | _ => none
+partial def parseElems : Nat → List String → Option (List (Lbl × Value) × List String)
+  | 0, r => some ([], r)
+  | n + 1, l :: r => do
+    let (v, r1) ← parseValue r
+    let (es, r2) ← parseElems n r1
+    some ((← l.toNat?, v) :: es, r2)
+  | _, _ => none
+end
+
+partial def parseAll (r : List String) : Option (List WItem) :=
+  match r with
+  | [] => some []
+  | "v" :: self :: r => do
+    let (v, r1) ← parseValue r
+    let is ← parseAll r1
+    some (.value (← self.toNat?) v :: is)
+  | r => do
     let (i, r1) ← parseItem r
     let is ← parseAll r1
-    some (i :: is)
+    some (.item i :: is)
 
 mutual
 partial def showItem : Item → String
@@ -86,6 +119,27 @@ partial def showItem : Item → String
   | .object l c body => s!"obj {l} {toHex c} {body.length}" ++ (if body.isEmpty then "" else " " ++ showItems body)
 partial def showItems (l : List Item) : String := " ".intercalate (l.map showItem)
 end
+
+mutual
+partial def showValue : Value → String
+  | .none => "n"
+  | .int v => s!"i {v}"
+  | .float v => s!"f {v}"
+  | .char v => s!"c {v}"
+  | .string bs => s!"s {toHex bs}"
+  | .constString none => "k0"
+  | .constString (some bs) => s!"k {toHex bs}"
+  | .vector bs => s!"vec {toHex bs}"
+  | .listener l => s!"l {l}"
+  | .constArrayRef h => s!"car {h}"
+  | .constArray h rc es => s!"ca {h} {rc} {es.length}" ++ (if es.isEmpty then "" else " " ++ " ".intercalate (es.map fun (_, v) => showValue v))
+end
+
+def showW : WItem → String
+  | .item i => showItem i
+  | .value s v => s!"v {s} {showValue v}"
+
+def showWs (l : List WItem) : String := " ".intercalate (l.map showW)
 
 def errName : Err → String
   | .invalidHeader => "InvalidArchiveHeader" | .wrongVersion => "WrongVersion" | .typeError => "TypeError"
@@ -102,14 +156,14 @@ def pcName : PC → String
 def fnv (s : String) : Nat :=
   (s.toList.foldl (fun (h : UInt32) c => (h ^^^ UInt32.ofNat (c.toNat % 256)) * 16777619) (2166136261 : UInt32)).toNat
 
-def showOutcome (r : Except Err (List Item)) : String :=
+def showOutcome (r : Except Err (List WItem)) : String :=
   match r with
-  | .ok items => "ok " ++ showItems items
+  | .ok items => "ok " ++ showWs items
   | .error e => "err " ++ errName e
 
-def shortOutcome (r : Except Err (List Item)) : String :=
+def shortOutcome (r : Except Err (List WItem)) : String :=
   match r with
-  | .ok items => s!"ok:{fnv (showItems items)}"
+  | .ok items => s!"ok:{fnv (showWs items)}"
   | .error e => errName e
 
 /-- run-length summary `a-b:outcome` of a list of outcomes indexed from `base` -/
@@ -127,14 +181,15 @@ def rle (base : Nat) (l : List String) : String :=
 structure St where
   classes : List Bytes := []
   info : Info := { header := [], name := [], version := 0 }
-  w : List Item := []
-  sch : List Sch := []
+  w : List WItem := []
+  calls : List Item := []
+  sch : List WSch := []
   bytes : Bytes := []
   have_ : Bool := false
 
 def cfg : Cfg := Cfg.current
 
-def dec (st : St) (bs : Bytes) : Except Err (List Item) := decode cfg st.classes st.info st.sch bs
+def dec (st : St) (bs : Bytes) : Except Err (List WItem) := decodeW cfg st.classes st.info st.sch bs
 
 def step (st : St) (t : List String) : St × String :=
   match t with
@@ -146,13 +201,14 @@ def step (st : St) (t : List String) : St × String :=
     match v.toNat?, bytes? h, bytes? n, parseAll items with
     | some v, some h, some n, some w =>
       let info : Info := { header := h, name := n, version := v }
-      let bytes := encode info w
-      let st' := { st with info := info, w := w, sch := schemaOf w, bytes := bytes, have_ := true }
+      let calls := (expand [] w).2
+      let bytes := encode info calls
+      let st' := { st with info := info, w := w, calls := calls, sch := schemaW w, bytes := bytes, have_ := true }
       (st', toHex bytes ++ " | " ++ showOutcome (dec st' bytes))
     | _, _, _, _ => (st, "bad-op")
   | ["layout"] =>
     if !st.have_ then (st, "bad-op") else
-    (st, rle 0 ((layout st.info st.w).map pcName))
+    (st, rle 0 ((layout st.info st.calls).map pcName))
   | ["t", k] =>
     match k.toNat? with
     | some k => if !st.have_ || k > st.bytes.length then (st, "bad-op") else (st, showOutcome (dec st (st.bytes.take k)))
